@@ -90,7 +90,7 @@ func genScenario(t *rapid.T) scenario {
 			seen[id] = true
 			idents = append(idents, ident{typ, id.Key})
 		}
-		switch rapid.IntRange(0, 3).Draw(t, "special") {
+		switch rapid.IntRange(0, 4).Draw(t, "special") {
 		case 0: // identities whose type+key concatenations coincide
 			add("ab", "0")
 			add("a", "b0")
@@ -100,6 +100,14 @@ func genScenario(t *rapid.T) scenario {
 			add("a", "0")
 			add("a0", "0")
 			add("a", "00")
+		case 2:
+			// the same construction with a separator: (A+sep+B, C) and (A, B+sep+C)
+			// coincide under any map key built as type+sep+key
+			sep := rapid.SampledFrom([]string{":", ".", "/", "|", "-", " ", "\x00", ",", "_", "="}).Draw(t, "sep")
+			add("a"+sep+"b", "c")
+			add("a", "b"+sep+"c")
+			add("a"+sep, "c")
+			add("a", sep+"c")
 		}
 		n := rapid.IntRange(1, 6).Draw(t, "nident")
 		for i := 0; i < n; i++ {
